@@ -92,6 +92,12 @@ def run(repo, rep, tier):
     rep.rule("R-C04-2", "copy-in, copy-out, output allocation order and (nk, nth) extraction agree on one layout with the "
                         "direction axis as the wrapping axis")
     rep.rule("R-C04-3", "the watershed-line reassignment sweeps exit early only when no label-0 pixel remains")
+    rep.rule("R-C04-6", "every loop over the whole spectrum in specpart.c visits every bin 0 .. nspec-1")
+    rep.rule("R-C04-7", "the watershed-line reassignment reads neighbour labels from one array and writes to a snapshot, framed by full copies")
+    nsw = cnative.sweep_coverage(repo, rep, "R-C04-6")
+    rep.floor("R-C04-6", "whole-spectrum sweeps", nsw, 8)
+    ndb = cnative.double_buffer(repo, rep, "R-C04-7")
+    rep.floor("R-C04-7", "neighbour-label reassignment stores", ndb, 1)
     cf = cnative.core(repo)
     stores, count_store = extract_table(cf, rep)
     rep.floor("R-C04-1", "guarded neighbour stores", len(stores), 12)
